@@ -139,6 +139,9 @@ class Scenario:
                                       # collector lock became a scheduling point keep their meaning)
     boot_interrupt: str | None = None   # KeyboardInterrupt instead of starting "inference" | "training" | "webapi"
     keeper_max_keep: int | None = None
+    fixed_interval: float | None = None   # FixedIntervalInteraction.with_sleep_adjustor(agent, env, interval, offset)
+    interval_offset: float = 0.0
+    archive_states: bool = False      # somebody moves the oldest state directory away after every runtime save
     loop_quantum: float = 0.25        # timed mode: virtual duration of one loop delay
     prelaunch: bool = False           # run a short first launch() and start the scenario from its final state
     budget: int = 20000
@@ -419,6 +422,12 @@ class Harness:
                 raise
             H.saves.append({"path": str(p), "files": H.read_tree(Path(p)),
                             "event_index": len(s.events)})
+            if H.sc.archive_states and not H.in_prelaunch:
+                # the user archives old checkpoints by hand while the system runs: retention must cope
+                olds = sorted(q for q in Path(p).parent.glob("*.state") if q != Path(p))
+                if olds:
+                    shutil.rmtree(olds[0], ignore_errors=True)
+                    s.log("archived", olds[0].name)
             s.log("save_end", Path(p).name)
             s.log("sysclock", "save_end", ptime._time_controller.time())
             return p
@@ -812,7 +821,13 @@ def build_components(H: Harness) -> dict:
     trainers = {f"trainer{i}": RecTrainer(f"trainer{i}", H.sc.conditioned and i == 0)
                 for i in range(H.sc.trainers)}
     H.agent, H.env, H.trainer_objs = agent, env, trainers
-    return {"interaction": Interaction(agent, env), "trainers": trainers}
+    if H.sc.fixed_interval:
+        from pamiq_core.interaction import FixedIntervalInteraction
+        inter = FixedIntervalInteraction.with_sleep_adjustor(agent, env, float(H.sc.fixed_interval),
+                                                             float(H.sc.interval_offset))
+    else:
+        inter = Interaction(agent, env)
+    return {"interaction": inter, "trainers": trainers}
 
 
 def run_scenario(scenario: Scenario | dict, schedule: list[int] | None = None,
